@@ -634,8 +634,10 @@ func (se *SpecEnv) callExpr(x *SCall) (Value, types.Type) {
 			// for a slice: its backing array is nil or allocated
 			v, t := se.evalTerm(x.Args[0])
 			if _, isSlice := types.Unalias(t).Underlying().(*types.Slice); isSlice {
+				// ... and the slice header is well-formed (0 <= len <= cap, a nil slice is empty): what the engine
+				// assumes of every slice value loaded by the code
 				p := vc.SlicePtr(v)
-				return Or(Eq(p, IntLit(0)), Select(se.ex.alive(se.cur), p)), boolT
+				return And(Or(Eq(p, IntLit(0)), Select(se.ex.alive(se.cur), p)), se.ex.sliceShape(v)), boolT
 			}
 			return Select(se.ex.alive(se.cur), v), boolT
 		case "indexin":
